@@ -134,3 +134,22 @@ Lemma auto_oldest_first tl ll infos a b ia ib :
   nth_error (scrub_selected SCRUB_AUTO tl ll infos) b = Some false ->
   (info_get_time ia <= info_get_time ib)%N /\ (info_get_time ia = info_get_time ib -> (a < b)%nat).
 Proof. exact (auto_oldest_first_walk tl ll infos a b ia ib). Qed.
+
+(* the refreshed word: time = now rounded down to 8 s, no mark; the bad mark keeps everything else *)
+Lemma refreshed_word now : (0 <= now < 4294967296)%Z ->
+  let w := info_make now false false false in
+  Z.of_N (info_get_time w) = (8 * (now / 8))%Z /\ info_get_bad w = false /\ info_get_rehash w = false /\
+  info_get_justsynced w = false.
+Proof.
+  intros H. split; [exact (make_time_now now H)|]. split; [exact (make_bad now false false false)|].
+  split; [exact (make_rehash now false false false)|exact (make_justsynced now false false false)].
+Qed.
+
+Lemma bad_mark_keeps_rest info :
+  info_get_bad (info_set_bad info) = true /\ info_get_time (info_set_bad info) = info_get_time info /\
+  info_get_rehash (info_set_bad info) = info_get_rehash info /\
+  info_get_justsynced (info_set_bad info) = info_get_justsynced info.
+Proof.
+  split; [exact (set_bad_bad info)|]. split; [exact (set_bad_time info)|].
+  split; [exact (set_bad_rehash info)|exact (set_bad_justsynced info)].
+Qed.
